@@ -318,6 +318,39 @@ theorem step_invL_jobDrop {s s' : State} {dead : List Inst} {x : Inst} {k : Nat}
       wdirD := inv.wdirD }
   · simp at hstep
 
+theorem step_invL_jobAbandon {s s' : State} {dead : List Inst} {x : Inst} {id : Nat} (inv : InvL s dead x)
+    (hstep : step s (.jobAbandon id) = some s') : InvL s' dead x := by
+  simp only [step] at hstep
+  injection hstep with hstep; subst hstep
+  have hsub : ∀ h, h ∈ s.retained.filter (fun h => h.id != id) → h ∈ s.retained := by
+    intro h hh; exact (List.mem_filter.mp hh).1
+  exact {
+    shape := inv.shape
+    deadNA := inv.deadNA
+    norel := inv.norel
+    safe := by
+      intro f hf
+      have hf := (mem_neededL (x := x) (by exact inv.shape) inv.deadNA f).mp hf
+      rcases hf with hl | ⟨h, hh, hr⟩
+      · exact inv.safe _ ((mem_neededL inv.shape inv.deadNA _).mpr (Or.inl hl))
+      · exact inv.safe _ ((mem_neededL inv.shape inv.deadNA _).mpr (Or.inr ⟨h, hsub h hh, hr⟩))
+    above := fun h hh => inv.above h (hsub h hh)
+    ownCur := fun h hh => inv.ownCur h (hsub h hh)
+    ownOld := fun h hh => inv.ownOld h (hsub h hh)
+    src := inv.src
+    srcid := inv.srcid
+    mine := fun hl u hu h hh => inv.mine hl u hu h (hsub h hh)
+    tused := fun h hh => inv.tused h (hsub h hh)
+    cused := inv.cused
+    winv := fun h hh => inv.winv h (hsub h hh)
+    wlt := fun h hh => inv.wlt h (hsub h hh)
+    curused := inv.curused
+    winvD := fun h hh => inv.winvD h (hsub h hh)
+    xdir := inv.xdir
+    wdirC := inv.wdirC
+    wdirH := fun h hh => inv.wdirH h (hsub h hh)
+    wdirD := inv.wdirD }
+
 theorem step_invL_ckpt {s s' : State} {dead : List Inst} {x : Inst} {i id : Nat} {wal : Wal} (inv : InvL s dead x)
     (hstep : step s (.ckpt i id wal) = some s') : ∃ x', InvL s' dead x' := by
   simp only [step] at hstep
@@ -688,7 +721,7 @@ theorem step_invL_openFresh {s s' : State} {dead : List Inst} {x : Inst} {r : KG
   injection hstep with hstep; subst hstep
   have hx := noneAlive_last inv.shape hna
   have hdl : dir = (dead ++ [x]).length := by rw [hdir, inv.shape]
-  refine ⟨dead ++ [x], { gen := g, range := r, nbrs := n, dir := dir }, ?_⟩
+  refine ⟨dead ++ [x], (freshInst r g n dir s.insts.length), ?_⟩
   have hd' : ∀ d ∈ dead ++ [x], d.life ≠ .alive := by
     intro d hd
     rcases List.mem_append.mp hd with h1 | h1
@@ -701,7 +734,7 @@ theorem step_invL_openFresh {s s' : State} {dead : List Inst} {x : Inst} {r : KG
     norel := by simp
     safe := by
       intro f hf
-      rw [mem_neededL (dead := dead ++ [x]) (x := { gen := g, range := r, nbrs := n, dir := dir })
+      rw [mem_neededL (dead := dead ++ [x]) (x := (freshInst r g n dir s.insts.length))
         (by simp [inv.shape]) hd'] at hf
       rcases hf with ⟨_, t, ht, _⟩ | ⟨h, hh, _⟩
       · simp at ht
@@ -731,13 +764,12 @@ theorem step_invL_openFresh {s s' : State} {dead : List Inst} {x : Inst} {r : KG
         have := (inv.wdirC c hc w hw).1; omega }
 
 /-- the instance a restore from the document entry `c` creates -/
-def restored (r : KGRange) (g : Nat) (n : List KGRange) (c : Ckpt) (id dir : Nat) : Inst :=
-  { gen := g, range := r, nbrs := n, current := c.tables, loaded := c.tables,
-    ckpts := [⟨id, c.tables, c.wals, true⟩], src := some id, dir := dir, walNext := nextWalId c.wals }
+def restored (s : State) (w : Nat) (r : KGRange) (g : Nat) (n : List KGRange) (c : Ckpt) (id dir : Nat) : Inst :=
+  restoredInst r g n c.tables c.wals id dir (linOf s [w])
 
 theorem step_invL_openFrom {s s' : State} {dead : List Inst} {x : Inst} {r : KGRange} {g : Nat} {n : List KGRange}
     {w id dir : Nat} (inv : InvL s dead x) (hna : noneAlive s = true) (hdir : dir = s.insts.length)
-    (hret : ∃ h0 ∈ s.retained, h0.writer = w ∧ h0.id = id)
+    (hret : ∃ h0 ∈ s.retained, h0.writer = w ∧ h0.id = id) (hall : ∀ h ∈ s.retained, h.id ≤ id)
     (hstep : step s (.openFrom r g n [w] id dir) = some s') : ∃ dead' x', InvL s' dead' x' := by
   have hx := noneAlive_last inv.shape hna
   have hdl : dir = (dead ++ [x]).length := by rw [hdir, inv.shape]
@@ -774,37 +806,31 @@ theorem step_invL_openFrom {s s' : State} {dead : List Inst} {x : Inst} {r : KGR
     obtain ⟨htab, hwal⟩ := hentry c hde
     simp only [hde, List.append_nil] at hstep
     injection hstep with hstep; subst hstep
-    have hfil : ∀ h, h ∈ s.retained.filter (fun h => decide (h.id ≤ id) || writerAlive s h.writer) →
-        h ∈ s.retained ∧ h.id ≤ id := by
-      intro h hh
-      have := List.mem_filter.mp hh
-      refine ⟨this.1, ?_⟩
-      simpa [writerAlive_false inv.shape inv.deadNA hx] using this.2
-    refine ⟨dead ++ [x], restored r g n c id dir, ?_⟩
+    refine ⟨dead ++ [x], restored s w r g n c id dir, ?_⟩
     exact {
       shape := by simp [inv.shape, restored]
       deadNA := hd'
       norel := by simp [restored]
       safe := by
         intro f hf
-        rw [mem_neededL (dead := dead ++ [x]) (x := restored r g n c id dir) (by simp [inv.shape, restored]) hd'] at hf
+        rw [mem_neededL (dead := dead ++ [x]) (x := restored s w r g n c id dir) (by simp [inv.shape, restored]) hd'] at hf
         rcases hf with ⟨_, t, ht, rfl⟩ | ⟨h, hh, hr⟩
         · have ht' : t ∈ h0.tables := htab ▸ ht
           exact inv.safe _ ((mem_neededL inv.shape inv.deadNA _).mpr (Or.inr ⟨h0, hh0, Or.inl ⟨t, ht', rfl⟩⟩))
-        · exact inv.safe _ ((mem_neededL inv.shape inv.deadNA _).mpr (Or.inr ⟨h, (hfil h hh).1, hr⟩))
-      above := fun h hh => inv.above h (hfil h hh).1
+        · exact inv.safe _ ((mem_neededL inv.shape inv.deadNA _).mpr (Or.inr ⟨h, hh, hr⟩))
+      above := fun h hh => inv.above h hh
       ownCur := by
         intro h hh hw
-        have := inv.wlt h (hfil h hh).1
+        have := inv.wlt h hh
         simp at hw
         omega
       ownOld := by
         intro h hh _
-        refine ⟨?_, id, rfl, (hfil h hh).2⟩
+        refine ⟨?_, id, rfl, hall h hh⟩
         by_cases hw : h.writer = dead.length
-        · exact ⟨x, by rw [hw]; simp, inv.ownCur h (hfil h hh).1 hw⟩
-        · obtain ⟨⟨d, hd, hb⟩, _⟩ := inv.ownOld h (hfil h hh).1 hw
-          have hlt : h.writer < dead.length := by have := inv.wlt h (hfil h hh).1; omega
+        · exact ⟨x, by rw [hw]; simp, inv.ownCur h hh hw⟩
+        · obtain ⟨⟨d, hd, hb⟩, _⟩ := inv.ownOld h hh hw
+          have hlt : h.writer < dead.length := by have := inv.wlt h hh; omega
           exact ⟨d, by rw [get_old hlt]; exact hd, hb⟩
       src := by
         intro t ht
@@ -814,7 +840,7 @@ theorem step_invL_openFrom {s s' : State} {dead : List Inst} {x : Inst} {r : KGR
         have : c' = ⟨id, c.tables, c.wals, true⟩ := by simpa [restored] using hc'
         subst this; rfl
       mine := by intro _ u hu; simp [restored] at hu
-      tused := fun h hh => inv.tused h (hfil h hh).1
+      tused := fun h hh => inv.tused h hh
       cused := by intro u hu; simp [restored] at hu
       winv := by
         intro h hh c' hc' w1 hw1 w2 hw2 hsm
@@ -831,22 +857,22 @@ theorem step_invL_openFrom {s s' : State} {dead : List Inst} {x : Inst} {r : KGR
           have hcid : c.id = id := by simpa using List.find?_some hde
           rw [inv.shape] at hwi
           rcases get_cases hwi with ⟨_, h1⟩ | ⟨_, rfl⟩
-          · have := inv.winvD h (hfil h hh).1 wi (List.mem_of_getElem? h1) c hcm w1 hw1 w2 hw2 hsm
+          · have := inv.winvD h hh wi (List.mem_of_getElem? h1) c hcm w1 hw1 w2 hw2 hsm
             exact hcid.symm.trans this
-          · have := inv.winv h (hfil h hh).1 c hcm w1 hw1 w2 hw2 hsm
+          · have := inv.winv h hh c hcm w1 hw1 w2 hw2 hsm
             exact hcid.symm.trans this
       wlt := by
         intro h hh
-        have := inv.wlt h (hfil h hh).1
+        have := inv.wlt h hh
         simp; omega
       curused := fun t ht => inv.tused h0 hh0 t (htab ▸ ht)
       winvD := by
         intro h hh d hd c' hc' w1 hw1 w2 hw2 hsm
         rcases List.mem_append.mp hd with h1 | h1
-        · exact inv.winvD h (hfil h hh).1 d h1 c' hc' w1 hw1 w2 hw2 hsm
+        · exact inv.winvD h hh d h1 c' hc' w1 hw1 w2 hw2 hsm
         · have : d = x := by simpa using h1
           subst this
-          exact inv.winv h (hfil h hh).1 c' hc' w1 hw1 w2 hw2 hsm
+          exact inv.winv h hh c' hc' w1 hw1 w2 hw2 hsm
       xdir := hdl
       wdirC := by
         intro c' hc' w' hw'
@@ -856,7 +882,7 @@ theorem step_invL_openFrom {s s' : State} {dead : List Inst} {x : Inst} {r : KGR
         exact ⟨by omega, fun h => by omega⟩
       wdirH := by
         intro h hh w' hw'
-        have h1 := (inv.wdirH h (hfil h hh).1 w' hw').1
+        have h1 := (inv.wdirH h hh w' hw').1
         exact ⟨by omega, fun h => by omega⟩
       wdirD := by
         intro d hd c' hc' w' hw'
@@ -899,11 +925,14 @@ theorem step_invL {s s' : State} {dead : List Inst} {x : Inst} {a : Act} (inv : 
     simp only [inScopeL, Bool.and_eq_true, beq_iff_eq] at hsc
     match ws, hsc, hstep with
     | [w], hsc, hstep =>
+      have hsc2 : (s.retained.any fun h => h.writer == w && h.id == id) = true ∧
+          (s.retained.all fun h => decide (h.id ≤ id)) = true := by simpa using hsc.2
       have hret : ∃ h0 ∈ s.retained, h0.writer = w ∧ h0.id = id := by
-        obtain ⟨h0, hh0, hp⟩ := List.any_eq_true.mp hsc.2
+        obtain ⟨h0, hh0, hp⟩ := List.any_eq_true.mp hsc2.1
         simp only [Bool.and_eq_true, beq_iff_eq] at hp
         exact ⟨h0, hh0, hp.1, hp.2⟩
-      exact step_invL_openFrom inv hsc.1.1 hsc.1.2 hret hstep
+      exact step_invL_openFrom inv hsc.1.1 hsc.1.2 hret
+        (by simpa using hsc2.2) hstep
     | [], hsc, _ => simp at hsc
     | _ :: _ :: _, hsc, _ => simp at hsc
   | release i => simp [inScopeL] at hsc
@@ -921,6 +950,7 @@ theorem step_invL {s s' : State} {dead : List Inst} {x : Inst} {a : Act} (inv : 
   | unsnap i k => obtain ⟨x', h⟩ := step_invL_simple inv trivial hstep; exact ⟨dead, x', h⟩
   | crash i => obtain ⟨x', h⟩ := step_invL_simple inv trivial hstep; exact ⟨dead, x', h⟩
   | jobDrop k => exact ⟨dead, x, step_invL_jobDrop inv hstep⟩
+  | jobAbandon id => exact ⟨dead, x, step_invL_jobAbandon inv hstep⟩
   | ckpt i id wal => obtain ⟨x', h⟩ := step_invL_ckpt inv hstep; exact ⟨dead, x', h⟩
   | retain i ids => obtain ⟨x', h⟩ := step_invL_retain inv (by simpa [inScopeL] using hsc) hstep; exact ⟨dead, x', h⟩
   | collect i u answers =>
